@@ -75,7 +75,7 @@ func fmtSeq(calls []seqCall) string {
 func emitSeq(id string, content []byte, final, regions string) {
 	calls, rest, pan := runSeq(content, final, 2000)
 	var alone []string
-	if regions != "-" {
+	if regions != "-" && regions != "?" {
 		for _, reg := range strings.Split(regions, ",") {
 			var s, e int
 			fmt.Sscanf(reg, "%d:%d", &s, &e)
@@ -97,6 +97,12 @@ func emitSeq(id string, content []byte, final, regions string) {
 func opScanSeq(r *rand.Rand, n int, tier string) {
 	g := dgen{r}
 	for i := 0; i < n; i++ {
+		if i%3 == 2 {
+			// malformed streams under the resume protocol: only crashes, hangs and the model are checked
+			base := genJunk(r, 2, false, false) + printDump(g.dump(1+r.Intn(3), 4), g.variant(), true) + genJunk(r, 2, false, false) + printRace(g.race())
+			emitSeq(fmt.Sprintf("seq-%d", i), []byte(mutate(r, mutate(r, base))), genFinal(r), "?")
+			continue
+		}
 		var b strings.Builder
 		var regions []string
 		k := 1 + r.Intn(4)
